@@ -22,4 +22,6 @@ def gaeOp (a : V) : R V := do
       let ok := Lerax.Gae.phi tol.close gamma lam rewards values dones last adv ret
       pure (.o (base ++ [("phi", .b ok)]))
 
+def gaeOps : List (String × (V → R V)) := [("gae", gaeOp)]
+
 end Lerax.Driver
